@@ -57,6 +57,14 @@ CHECKS = {
    technique="TLC-written programs over signed value pairs x layouts x kinds x float position for < <= > >= == !=, abs, signum, %, sum, zero/one identities, abs_sub; each result validated by TLC (comparison on values, abs flips everything, a % b = a - b*trunc(a/b) in value and derivatives, sum = left fold from zero)",
    text="All four sign combinations of dividend and divisor, equal values, number/float pairs in both positions, Dual / Dual2 / Number.",
    note="Remainders whose quotient is within 1e-6 of (but not exactly) an integer are skipped."),
+ "C11": dict(engine="curve", cat="model_checking", design="5/C11",
+   technique="index_left's recursion as a TLC-checked state machine (one level per step, slice invariant, Alg = 'first node on or after, clamped') for every length and rank; TLC-enumerated supply orders x rules x constructors replayed into CurveDF / the Python-facing Curve and random curves recorded; every look-up (node index, value, index value) validated by TLC against the rule's closed form on the two nodes of the declarative interval",
+   text="Interval selection is exhaustive on the model and replayed through the real index_left for every length/rank; interpolation rules are validated at, +-1 day around, between and beyond every node for every supply order of 2-4 (5) nodes and on random 2-30 node curves.",
+   note="Closed forms recomputed by TLC in doubles to 1e-9; dates are midnight day numbers; overflowing extrapolations are not judged."),
+ "C12": dict(engine="curve", cat="model_checking", design="5/C12",
+   technique="Derivative-order switching as a TLC-checked state machine (all switch sequences; values stable, tagging '<id><i>' in date order, 1<->2 keeps names); every TLC-enumerated switch sequence performed on real curves of every rule; after each switch the node state and the value, gradient and Hessian of every look-up are validated by TLC against the closed form evaluated on DualAlgebra numbers, index values against base / value",
+   text="All sequences of up to 3 (4) switches from every initial order, float-valued and dual-valued nodes with custom names, both constructors; sensitivities are derived by TLC from the same TLA+ closed form as the values.",
+   note="As C11; Hessians to 1e-9 of the sum of absolute terms."),
 }
 
 PENDING = {
@@ -86,6 +94,8 @@ ENGINES = [
       serves_properties=["C06", "C07"], kind_free_text="TLA+ grammar/rule model checked by TLC + validation of recorded observations and fixing histories"),
  dict(name="fx", path="spec/FXRates.tla spec/MC_FXRates.tla spec/Trace_FX.tla harness/src/fx.rs lib/checks_fx.py",
       serves_properties=["C09", "C10"], kind_free_text="exact TLA+ state machine of the FX triangulation checked by TLC + history validation of real FXRates objects"),
+ dict(name="curve", path="spec/Curve.tla spec/MC_Curve.tla spec/Gen_Curve.tla spec/Trace_Curve.tla harness/src/curve.rs lib/checks_curve.py",
+      serves_properties=["C11", "C12"], kind_free_text="TLA+ model of interval selection and order switching checked by TLC + history validation of real curves"),
  dict(name="num", path="spec/FP.tla spec/java/FP.java spec/DualAlgebra.tla spec/NumVM.tla spec/MC_NumVM.tla spec/MC_Layout.tla spec/Gen_NumVM.tla spec/Trace_NumVM.tla harness/src/numvm.rs lib/checks_num.py",
       serves_properties=["C01", "C02", "C03", "C17", "C18", "C19"], kind_free_text="TLA+ register machine over by-name dual numbers; rules checked against finite differences by TLC; per-instruction trace validation"),
 ]
